@@ -472,11 +472,18 @@ static void op_cv_await (op_t *o) {
 }
 
 static int64_t cv_signals_invoked[MAXCV], cv_signals_returned[MAXCV];
+/* every wake-up call on a cv gets a sequence number when it is invoked; the highest number among those that have returned is kept per
+   cv for broadcasts and for wake-ups of either kind: "a call numbered above what had been invoked when I registered has returned"
+   means a complete wake-up call (invoke .. return) lies after the registration */
+static int64_t cv_wake_seq[MAXCV], cv_bcast_ret_max[MAXCV], cv_wake_ret_max[MAXCV];
 static void do_signal (int ci, int bcast) {
+	int64_t seq = ++cv_wake_seq[ci];
 	cv_signals_invoked[ci]++;
 	if (bcast) { nsim_op_begin ("nsync_cv_broadcast"); nsync_cv_broadcast (W.cv[ci]); }
 	else { nsim_op_begin ("nsync_cv_signal"); nsync_cv_signal (W.cv[ci]); }
 	cv_signals_returned[ci]++;
+	if (bcast && seq > cv_bcast_ret_max[ci]) cv_bcast_ret_max[ci] = seq;
+	if (seq > cv_wake_ret_max[ci]) cv_wake_ret_max[ci] = seq;
 	nsim_op_end ();
 }
 static void op_signal (op_t *o) {
@@ -657,6 +664,8 @@ static int64_t note_chain_min_dl (int n) {
 	return best;
 }
 
+/* the two "deadline not after the epoch" values a note may be created with: an instant before the epoch, and the epoch itself */
+static nsync_time preepoch_time (int n) { return (n & 1) ? nsync_time_zero : nsync_time_s_ns (-5, 250000000); }
 static int last_alloc_failed;     /* set by the C19 family when the constructor returned NULL */
 static void create_note (int n) {
 	int p = S.note_parent[n];
@@ -680,7 +689,7 @@ static void create_note (int n) {
 	}
 	NM[n].expiry_want = note_chain_min_dl (n);
 	nsim_op_begin ("nsync_note_new");
-	W.note[n] = nsync_note_new (parent, NM[n].pre_epoch ? nsync_time_s_ns (-5, 250000000) : dl_time (dl_ns));
+	W.note[n] = nsync_note_new (parent, NM[n].pre_epoch ? preepoch_time (n) : dl_time (dl_ns));
 	nsim_op_end ();
 	if (nsim_alloc_failures () != fails_before) {
 		nsim_probe (PR_ALLOC_FAILED);
@@ -758,7 +767,7 @@ static void op_note_expiry (op_t *o) {
 	nsim_op_end ();
 	want = NM[n].expiry_want;
 	if (NM[n].born_expired && NM[n].dl_ns >= 0 && nsync_time_cmp (e, time_from_ns (NM[n].dl_ns)) == 0) return;   /* born notified: own deadline reported */
-	if (NM[n].pre_epoch && nsync_time_cmp (e, nsync_time_s_ns (-5, 250000000)) == 0) return;
+	if (NM[n].pre_epoch && nsync_time_cmp (e, preepoch_time (n)) == 0) return;
 	if (want < 0) {
 		if (nsync_time_cmp (e, nsync_time_no_deadline) != 0 && !(NM[n].late_child && nsync_time_cmp (e, nsync_time_zero) == 0)) {
 			VIOL ("C08", "expiry", "nsync_note_expiry(%d) is not no_deadline although no deadline exists on its chain", n);
@@ -859,6 +868,9 @@ static void once_body (int oi) {
 	OM[oi].runs++;
 	if (OM[oi].runs > 1) VIOL ("C07", "once-ran-twice", "the once function of once%d ran %d times", oi, OM[oi].runs);
 	for (i = 0; i < S.p[0]; i++) nsim_point ();
+	/* a slow initialisation: a quarter of a second of virtual time in slices, so that callers that arrive meanwhile go through every
+	   stage of whatever waiting scheme the library uses (today: timed waits of 10, 20, ... 50 ms) and still return when it is done */
+	for (i = 0; i < S.p[4]; i++) { nsim_advance_ns (30000000); nsim_yield (); }
 	if (S.p[1] && W.mu[0]) {          /* the once function may itself use an unrelated mutex */
 		nsync_mu_lock (W.mu[0]);
 		nsim_point ();
@@ -1019,6 +1031,7 @@ static void world_init (void) {
 	memset (nCH, 0, sizeof nCH);
 	memset (cv_signals_invoked, 0, sizeof cv_signals_invoked);
 	memset (cv_signals_returned, 0, sizeof cv_signals_returned);
+	memset (cv_wake_seq, 0, sizeof cv_wake_seq); memset (cv_bcast_ret_max, 0, sizeof cv_bcast_ret_max); memset (cv_wake_ret_max, 0, sizeof cv_wake_ret_max);
 	hstep = 0; held_checks = 0; qstep = 0;
 	memset (CW, 0, sizeof CW); memset (cv_bcast_acq, 0, sizeof cv_bcast_acq);
 	harness_state_reset ();
